@@ -1,8 +1,10 @@
 #!/bin/sh
-# runs every quick (or thorough) check sequentially, logging to /tmp/runall/<id>.log
-tier=${1:-quick}
+# runs checks sequentially, logging to /tmp/runall/<id>.log ; usage: runall.sh <tier> [ids...]
+tier=${1:-quick}; shift
+ids="$@"
+[ -z "$ids" ] && ids="C15 C17 C16 C18 C13 C19 C11 C09 C08 C05 C14 C06 C03 C07 C02 C01 C04 C12"
 mkdir -p /tmp/runall
-for p in C15 C17 C16 C18 C13 C19 C11 C09 C08 C05 C14 C06 C03 C07 C02 C01 C04 C12; do
+for p in $ids; do
   s=$(date +%s)
   /verif/check $p $tier > /tmp/runall/$p.log 2>&1
   rc=$?
